@@ -63,6 +63,7 @@ type FuncSpec struct {
 	Params   []string
 	Results  []string
 	Requires []Clause
+	Assumes  []Clause
 	Ensures  []Clause
 	Assigns  []Clause // location expressions; empty + AssignsSet => \nothing
 	AssignsAny bool
@@ -228,6 +229,9 @@ func (db *SpecDB) LoadFile(path, pkg string) error {
 				return fail("%v", err)
 			}
 			m.Opaque = word == "opaque"
+			if _, dup := db.Macros[m.Name]; dup {
+				return fail("duplicate define %s", m.Name)
+			}
 			db.Macros[m.Name] = m
 		case "uf":
 			u, err := parseUF(rest)
@@ -387,16 +391,22 @@ func parseTag(word, rest string) (tag, expr string) {
 
 func parseClause(fs *FuncSpec, word, rest string, line int) error {
 	switch word {
-	case "requires", "ensures":
+	case "requires", "ensures", "assumes":
 		tag, ex := parseTag(word, rest)
 		x, err := ParseExpr(ex)
 		if err != nil {
 			return fmt.Errorf("%s: %v", word, err)
 		}
 		cl := Clause{Tag: tag, Expr: x, Text: ex, Line: line}
-		if word == "requires" {
+		switch word {
+		case "requires":
 			fs.Requires = append(fs.Requires, cl)
-		} else {
+		case "assumes":
+			// assumed at entry of the function's own verification only (the
+			// definition of a spec function); never an obligation, never used at
+			// call sites, and listed in the evidence as trusted
+			fs.Assumes = append(fs.Assumes, cl)
+		default:
 			fs.Ensures = append(fs.Ensures, cl)
 		}
 	case "assigns":
